@@ -987,11 +987,17 @@ inductive Op where
   | adv (ms : Nat)
   | stunreply (k m : Nat)
   | turnreply (k : Nat) (ok : Bool) (m : Nat)
+  /-- two `GatherCandidates` tasks queued back to back behind a held task loop: both run before the
+  goroutine of the first cycle gets its `setGatheringState(Gathering)` task through -/
+  | gather2
+  /-- `GatherCandidates`, `Restart`, `GatherCandidates` queued back to back behind a held task loop -/
+  | grg
   deriving Repr, Inhabited
 
-/-- result token of an operation -/
+/-- result token of an operation (`pair`: the results of several queued calls, in order) -/
 inductive Rtok where
   | ok | multiple | closed | skip
+  | pair (a b : Rtok)
   deriving DecidableEq, Repr, Inhabited
 
 def applyFailed (s : MState) (failedNow : Nat) : MState :=
@@ -1012,7 +1018,44 @@ def closeAgent (s : MState) : MState :=
   let s := resume s (fun j => if j.deadline ≤ s.now then some (.fail, 0) else none)
   dropCands s
 
+/-- the `GatherCandidates` task alone: the cycle is accepted (or refused); its goroutine has not run yet -/
+def acceptGather (s : MState) : MState × Rtok × Option (Nat × Nat) :=
+  let (cy, outs) := Cycle.step false s.cyc .gather
+  match outs with
+  | [.accepted c gen] => ({ s with cyc := cy }, .ok, some (c, gen))
+  | [.closedErr] => (s, .closed, none)
+  | _ => (s, .multiple, none)
+
+/-- the goroutine of an accepted cycle gets to run: `setGatheringState(Gathering)` is applied unless the
+cycle was cancelled in the meantime (then the goroutine ends), and the gatherers run -/
+def startCycle (s : MState) (cg : Option (Nat × Nat)) : MState :=
+  match cg with
+  | none => s
+  | some (c, gen) =>
+    let (cy, outs) := Cycle.step false s.cyc (.start c)
+    match outs with
+    | [] => { s with cyc := cy }
+    | _ => finishCycle (runCycleUnits { s with cyc := cy } c gen)
+
+/-- the `Restart` task -/
+def restartOp (s : MState) : MState × Rtok :=
+  let (cy, outs) := Cycle.step false s.cyc .restart
+  match outs with
+  | [.restarted _] =>
+    let s := dropCands { s with cyc := cy, nilsGen := 0 }
+    (resume s (fun j => if j.unit.kind == .srflxMux then some (.fail, 0) else none), .ok)
+  | _ => (s, .closed)
+
 def step (s : MState) : Op → MState × Rtok
+  | .gather2 =>
+    let (s1, r1, c1) := acceptGather s
+    let (s2, r2, c2) := acceptGather s1
+    (startCycle (startCycle s2 c1) c2, .pair r1 r2)
+  | .grg =>
+    let (s1, r1, c1) := acceptGather s
+    let (s2, r2) := restartOp s1
+    let (s3, r3, c3) := acceptGather s2
+    (startCycle (startCycle s3 c1) c3, .pair r1 (.pair r2 r3))
   | .gather =>
     let (cy, outs) := Cycle.step false s.cyc .gather
     match outs with
